@@ -494,6 +494,25 @@ pub fn check_case(c: &Case, only_k: Option<u64>, acc: &mut Acc) -> CaseResult {
             );
         }
         acc.label("unify-polls-tracked");
+        // exact form, when the work does not vary between runs: unification polls once per `p` classes
+        // looked at (one counter over all rounds) and layout building once per `p` slots, so the polls
+        // of the two together are ceil(U / p) + ceil(S / p) with S the number of slots in the layout
+        if wmin == wmax {
+            if let Ok(Ok(l)) = guard(|| subj::analyze(&c.bytes, &cfg(c), true, subj::lazy())) {
+                let s: std::collections::BTreeSet<String> = l.slots().iter().map(|r| format!("{:?}", r.index)).collect();
+                let s = s.len() as u64;
+                if s <= wmin {
+                    let want = ceil_div(wmin - s, p) + ceil_div(s, p);
+                    acc.label("unify+layout-polls-exact");
+                    if unify_polls != want {
+                        return fail(
+                            "unification / layout building do not poll once per interval iterations (exact count)".into(),
+                            format!("interval {p}: {unify_polls} polls, expected {want} = ceil({}/{p}) + ceil({s}/{p})", wmin - s),
+                        );
+                    }
+                }
+            }
+        }
     }
     if unify_polls > 2 * unify_polls_1 + 16 {
         return fail(
